@@ -33,7 +33,7 @@ func init() {
 	fw.Register(&fw.Check{
 		ID:    "C20",
 		Level: "exploration",
-		Rule: "case = G goroutines (2, 4, 16, 64 by index), goroutine g owns UE context g (own keys, algorithm pair cycling through {NIA1,NIA2}x{NEA0,NEA1,NEA2}) and executes a seeded script of 200 (quick) / 1500 (thorough) operations drawn from " +
+		Rule: "case = G goroutines (2, 4, 16, 64 by index), goroutine g owns UE context g (own keys, algorithm pair cycling through {NIA1,NIA2}x{NEA0,NEA1,NEA2}) and executes a seeded script (lock-step prefix of 3 rounds over all operation kinds, then one burst of 16 (quick) / 64 (thorough) consecutive operations per kind at the same script positions in every goroutine, then a mixed random tail of 60 / 400) of operations drawn from " +
 			"NGAP build+encode, NGAP decode, plain NAS encode/decode, NAS protect (EncodeNasPduWithSecurity), NAS unprotect (NASDecode), key derivation (DeriveRESstarAndSetKey), NASEncrypt, NASMacCalculate, Milenage F1/F2345, and - generated inside the goroutine - any of the 77 NGAP message types (encode, decode, re-encode), the 25 transfer container types through aper.MarshalWithParams/UnmarshalWithParams, any of the 45 NAS message types with a random optional-IE subset, the 64 builders that do not write the announced PLMN, the identity / conversion helpers (EncodeSuci, CreateUE, capability, PLMN, S-NSSAI, AMF id, transport address, PCO, DNN) and the two hand-written extractors on reference-built messages; " +
 			"GOMAXPROCS alternates between 2 and 16, Gosched calls are sprinkled by the script. Each case is a fresh process: the scripts run concurrently FIRST (caches and lazily built tables cold; a lock-step prefix makes every goroutine use each operation kind on identical inputs at the same time, so first uses collide), then one goroutine at a time for reference. distinct = hash(G, scripts); non-trivial = overlapping operations were observed",
 		Assumptions: []string{
@@ -138,7 +138,11 @@ func c20Op(a *c20Actor, kind int) [32]byte {
 		}
 	case 5:
 		ue := tglib.NewRanUeContext(a.ue.Supi, 1, a.ue.CipheringAlg, a.ue.IntegrityAlg)
-		ue.AuthenticationSubs = tglib.GetAuthSubscription(hexs(a.k), hexs(a.opc), "")
+		if r.Intn(2) == 0 {
+			ue.AuthenticationSubs = tglib.GetAuthSubscription(hexs(a.k), hexs(a.opc), "")
+		} else { // subscriber provisioned with OP only (a.opc serves as this actor's OP value): the other branch of the derivation
+			ue.AuthenticationSubs = tglib.GetAuthSubscription(hexs(a.k), "", hexs(a.opc))
+		}
 		var autn [16]byte
 		copy(autn[:], rbytes(r, 16))
 		res := ue.DeriveRESstarAndSetKey(ue.AuthenticationSubs, autn, rbytes(r, 16), "5G:mnc001.mcc001.3gppnetwork.org", "01", "001")
@@ -187,31 +191,54 @@ func c20NewActor(seed int64, g int) *c20Actor {
 
 func runC20(c *fw.Case) (o fw.Outcome) {
 	G := []int{2, 4, 16, 64}[c.Idx%4]
-	steps := 200
+	nk := len(c20OpNames)
+	// script of every goroutine = lock-step prefix (same kinds, same inputs: first uses collide) + one BURST per operation
+	// kind (all goroutines inside the same function for a sustained period, each on its own UE and inputs: check-then-act
+	// windows on shared state need two callers in the same function at the same time) + a mixed random tail
+	burst, tail := 16, 60
 	if c.Thorough() {
-		steps = 1500
+		burst, tail = 64, 400
 	}
 	if G == 64 {
-		steps /= 4
+		burst, tail = burst/3+1, tail/4
 	}
-	procs := []int{2, 16}[(c.Idx/4)%2]
+	prefix := 3 * nk
+	// burst length per kind: the SNOW 3G users are slow under the race runtime, everything else gets four times as many
+	blen := make([]int, nk)
+	bsum := 0
+	for k := range blen {
+		blen[k] = 4 * burst
+		switch c20OpNames[k] {
+		case "nas-protect", "nas-unprotect", "nas-encrypt", "nas-mac":
+			blen[k] = burst
+		}
+		bsum += blen[k]
+	}
+	steps := prefix + bsum + tail
+	procs := []int{16, 2, 16}[(c.Idx/4)%3]
 	old := runtime.GOMAXPROCS(procs)
 	defer runtime.GOMAXPROCS(old)
 	seed := c.R.Int63()
-	// script: operation kinds per goroutine; SNOW 3G based operations (NEA1/NIA1 users) are capped, the race runtime is slow on them
 	scripts := make([][]int, G)
 	sr := rand.New(rand.NewSource(seed))
-	prefix := 3 * len(c20OpNames) // lock-step prefix: every goroutine does the same kinds on the same inputs first (first uses collide)
-	if prefix > steps/2 {
-		prefix = steps / 2
-	}
+	kindOrder := sr.Perm(nk)
 	for g := range scripts {
 		scripts[g] = make([]int, steps)
 		for i := range scripts[g] {
-			if i < prefix {
-				scripts[g][i] = (i + int(seed%7)) % len(c20OpNames)
-			} else {
-				scripts[g][i] = sr.Intn(len(c20OpNames))
+			switch {
+			case i < prefix:
+				scripts[g][i] = (i + int(seed%7)) % nk
+			case i < prefix+bsum:
+				off := i - prefix
+				for _, k := range kindOrder {
+					if off < blen[k] {
+						scripts[g][i] = k
+						break
+					}
+					off -= blen[k]
+				}
+			default:
+				scripts[g][i] = sr.Intn(nk)
 			}
 		}
 	}
